@@ -9,6 +9,16 @@ T_TOOLS = 'T10 Verus 0.2026.09.13, Z3, rustc; machine integers are checked (not 
 T_RPO = 'T4 RPO hash (miden-crypto hash_elements / merge_in_domain) uninterpreted; collision resistance NOT assumed'
 
 PROPS = {
+    'C19': {
+        'level': 'proof',
+        'units': ['serde_core'],
+        'kani': [],
+        'trusted_base': [T_FELT, T_TOOLS, 'T6 winter-utils ByteReader/ByteWriter contracts (little-endian fixed-width reads, EOF => Err), StarkProof::from_bytes total', 'Kernel::new (sort_by_key / windows closures) contract assumed'],
+        'not_decided': ['decoders of program/module ASTs, instruction nodes and compiled libraries (assembly crate): not yet under contract', 'winter-utils read_many allocation with an attacker-chosen length', 'StackInputs::try_from_values / AdviceInputs::with_stack_values (iterator closures, R8)'],
+        'sample_obligations': ['C19/serde_core/StackOutputs as Deserializable::read_from#ensures.0 : Ok(v) ==> v.wf() (>= 16 elements, canonical, overflow length consistent)',
+                               'C19/serde_core/Kernel as Deserializable::read_from#ensures.0 : Ok(k) ==> at most 255 distinct procedures',
+                               'C19/serde_core/ExecutionProof::from_bytes#ensures : < 2 bytes or unknown tag ==> Err'],
+    },
     'C04': {
         'level': 'proof',
         'units': ['air_field', 'air_u32', 'air_stack'],
